@@ -241,7 +241,10 @@ def msg_line(m):
 # ---------------------------------------------------------------------------------
 def _run_sc(arg):
     exe, sc = arg
-    obs, rc, err = E.run_scenario(exe, sc)
+    try:
+        obs, rc, err = E.run_scenario(exe, sc)
+    except Exception as ex:          # e.g. the daemon binary is being relinked by a concurrent build
+        return ["?exception %r" % (ex,)], None, ""
     return obs, rc, err[-6000:]
 
 
